@@ -517,6 +517,12 @@ impl Check for TreeProp {
             scn.params.insert("history".into(), 1.0);
             return scn;
         }
+        if self.id == "C16" && index % 2003 == 19 {
+            let mut scn = crate::checks::micro_fine(self.id, seed, index);
+            scn.params.insert("depth".into(), 3.0);
+            scn.params.insert("obstacle_free".into(), 1.0);
+            return scn;
+        }
         if self.id == "C15" && index % 4001 == 17 {
             let mut scn = crate::checks::ultra_fine(self.id, seed, index);
             scn.params.insert("depth".into(), 2.0);
